@@ -145,6 +145,8 @@ def check_local(ctx, zone, zid, W, L, cal, tag, kp=""):
         if m.count != 0: V("single-raised-skipped", f"single() raised SkippedTimeError with count {m.count}")
     except AmbiguousTimeError:
         if m.count != 2: V("single-raised-ambiguous", f"single() raised AmbiguousTimeError with count {m.count}")
+    except Exception as ex:  # noqa: BLE001
+        ctx.exc(ex); V(f"single-raised-other:{type(ex).__name__}", f"single() raised {ex!r} (count {m.count}); only SkippedTimeError / AmbiguousTimeError are documented", repr(ex))
     # strict
     try:
         r = zone.at_strictly(ldt)
@@ -154,6 +156,8 @@ def check_local(ctx, zone, zid, W, L, cal, tag, kp=""):
         if len(exp) != 0: V("at_strictly-skipped", f"at_strictly raised SkippedTimeError although {len(exp)} instants match")
     except AmbiguousTimeError:
         if len(exp) != 2: V("at_strictly-ambiguous", f"at_strictly raised AmbiguousTimeError although {len(exp)} instants match")
+    except Exception as ex:  # noqa: BLE001
+        ctx.exc(ex); V(f"at_strictly-raised-other:{type(ex).__name__}", f"at_strictly raised {ex!r} ({len(exp)} instants match); the strict resolver raises SkippedTimeError / AmbiguousTimeError", repr(ex))
     # lenient
     try:
         r = zone.at_leniently(ldt); rn = gen.inst_ns(r.to_instant())
